@@ -5,7 +5,7 @@ V = '/verif'
 NEEDS = {
  'C01': ('PadIfNeeded.apply_to_mask swaps pad_front/pad_back', 'PadIfNeeded with an asymmetric depth padding (odd total or a front_*/back_* position) and a mask / masks / mask-typed additional target'),
  'C02': ('PadIfNeeded.apply_to_bbox adds pad_back instead of pad_front to z_max', 'PadIfNeeded with pad_front != pad_back and bounding boxes'),
- 'C03': ('update_params uses setdefault; replay parameter dict aliased', 'a transform whose keypoint path reads rows/cols/slices from params, run through ReplayCompose.replay or after a previous call on a different shape'),
+ 'C03': ('crop_and_pad_keypoint rescales only when rows or cols changed (depth dropped from the guard); second sub-agent change, the first one became harmless after fix 9b7fb4c (kept under seeded/harmless)', 'CropAndPad(keep_size=True) whose crop / pad amounts are non-zero along z only, with keypoints'),
  'C04': ('filter_bboxes denormalises with (cols, rows) swapped', 'non-square frame (rows != cols) and min_area / min_planar_area thresholds or visibility close to the limit'),
  'C05': ('remove_label_fields_from_data returns early when every box was dropped', 'label_fields set and a transform after which no box / keypoint survives'),
  'C06': ('ShiftScaleRotate.apply_to_mask passes crop_to_border / INTER_NEAREST in swapped positions', 'ShiftScaleRotate with a mask whose ids are sparse (interpolation order 1 mixes ids)'),
@@ -13,7 +13,7 @@ NEEDS = {
  'C08': ('Compose._check_args compares shape[:2] only', 'image and mask that differ in depth only, is_check_shapes=True'),
  'C09': ('ShiftScaleRotate axes normalised through set()', 'list of >= 2 planes and comparison across processes with different PYTHONHASHSEED'),
  'C10': ('KeypointsProcessor.convert_from_dicaugment drops angle_in_degrees', 'KeypointParams(angle_in_degrees=False) with an angle-carrying format'),
- 'C11': ('add_noise_nps adds the noise in place instead of on a copy (re-seeded by hand after fix bc67c26 rewrote the original site, rescale_slope_intercept)', 'NPSNoise on an int16 image with a header; caller reuses its input array'),
+ 'C11': ('F.normalize skips the astype copy for float64 images and then works in place (second sub-agent change; the first one no longer applied after fix bc67c26 rewrote rescale_slope_intercept)', 'Normalize (or F.normalize) on a float64 image, any layout; non-default or image-derived mean / std'),
  'C12': ('CoarseDropout._keypoint_in_hole rounds keypoint coordinates', 'keypoint with fractional coordinates within 0.5 voxel of a hole face'),
  'C13': ('BaseCompose.get_dict_with_id records "p"; replay restores it', 'ReplayCompose with nested OneOf/Compose with p<1 replayed on new data'),
  'C14': ('BboxParams._to_dict writes min_volume_visibility from min_area_visibility', 'serialised pipeline with bbox_params min_volume_visibility != min_area_visibility'),
